@@ -5,7 +5,7 @@
 set -e
 FL=${1:-A}
 REPO=${DSIM_REPO:-/repo}
-V=/verif
+V=$(cd "$(dirname "$0")" && pwd)
 B=$V/build/$FL
 mkdir -p $B/lib $B/obj
 exec 9>$V/build/.lock.$FL
@@ -41,7 +41,7 @@ done
 echo "$DEFS $HFLAGS" | cmp -s - $B/obj/defs.stamp 2>/dev/null || echo "$DEFS $HFLAGS" > $B/obj/defs.stamp
 REAL_SRCS=""
 for s in $SRCS; do [ -f $V/$s ] && REAL_SRCS="$REAL_SRCS $s"; done
-make -s -j16 -f $V/Makefile.harness B=$B CXX=$CXX HFLAGS="$HFLAGS" DEFS="$DEFS" INC="$INC" SRCS="$REAL_SRCS" > $B/harness.log 2>&1 || { tail -40 $B/harness.log; echo "harness compile failed"; exit 2; }
+make -s -j16 -f $V/Makefile.harness V=$V B=$B CXX=$CXX HFLAGS="$HFLAGS" DEFS="$DEFS" INC="$INC" SRCS="$REAL_SRCS" > $B/harness.log 2>&1 || { tail -40 $B/harness.log; echo "harness compile failed"; exit 2; }
 OBJS=""
 for s in $REAL_SRCS; do OBJS="$OBJS $B/obj/$(echo $s | tr / _).o"; done
 WRAPS="pthread_create pthread_join pthread_detach pthread_mutex_init pthread_mutex_destroy pthread_mutex_lock pthread_mutex_trylock pthread_mutex_unlock pthread_cond_init pthread_cond_destroy pthread_cond_wait pthread_cond_timedwait pthread_cond_signal pthread_cond_broadcast pthread_attr_setaffinity_np pthread_setname_np clock_gettime nanosleep fopen fileno fstat posix_memalign free aws_priority_queue_push_ref"
